@@ -65,7 +65,9 @@ fn check(t: &mut Tally, name: &str) {
     }
     // revision
     let tn = trailing_nb(wversion);
-    match (tn, wversion.contains("nb")) {
+    // 'NB' / 'Nb' in the version: the comparison reads them as a revision (case-insensitively),
+    // the statement speaks of 'nb' only - what PkgName reports for them is not constrained
+    match (tn, wversion.to_ascii_lowercase().contains("nb")) {
         (Some((_, r)), _) => {
             if rev != Some(r) {
                 bad("a version ending in nb<digits> reports that number as PKGREVISION", json!(r), json!(rev));
@@ -182,7 +184,18 @@ fn main() {
                 }
             }
         }
-        run.bound("scale: names built from 16..70000 repetitions of six units followed by five version tails");
+        // long versions: the text after the last '-' grows, not the base
+        for n in [16usize, 17, 64, 255, 256, 1000, 70_000] {
+            for unit in ["1.", "9", "nb1", "\u{e9}", "a", "_0", "nb"] {
+                for tail in ["", "nb7", "nb000000000000000012", "x", "nb3nb4"] {
+                    for base in ["p", "p-q"] {
+                        t.states += 1;
+                        check(&mut t, &format!("{}-{}{}", base, unit.repeat(n), tail));
+                    }
+                }
+            }
+        }
+        run.bound("scale: names built from 16..70000 repetitions of six units followed by five version tails; versions built from 16..70000 repetitions of seven units with five tails");
         run.merge(t);
     }
     // character sweep: every ASCII (incl. NUL, LF, CR) and 64 special non-ASCII characters in seven name positions
